@@ -1,18 +1,22 @@
-import os, json
+import os, json, struct
 from engine import Query
 META = {}
-# known findings of this harness; with VF_KF_MANUAL=1 the defines are passed directly (ids not yet in known_findings.json)
+# known findings of this harness; with VF_KF_MANUAL=1 the defines are passed directly (for ids not yet in known_findings.json)
 KF_CTOR = 'C12-number-ctor-uninit'
 KF_TYPE = 'C12-assign-type-no-reset'
 KF_NULLP = 'C12-setptr-null'
+KF_RMKEY = 'C12-remove-string-key'
 MAN = os.environ.get('VF_KF_MANUAL') == '1'
-KIND = {'U': 0, 'S': 4, 'UI': 5, 'I': 6, 'D': 7, 'T': 8, 'F': 9, 'NUL': 10}
+KIND = {'U': 0, 'S': 4, 'UI': 5, 'I': 6, 'D': 7, 'T': 8, 'F': 9, 'NUL': 10, 'X': 20}
+KEYID = {'e': 0, 'a': 1, 'b': 2, 'ab': 3}
 OP = {'NONE': 0, 'AS_SCALAR': 1, 'AS_TYPE': 2, 'AS_STR': 3, 'AS_ARR': 4, 'AS_COPY': 5, 'AS_MOVE': 6, 'AS_SELF': 7, 'CTOR_COPY': 8, 'CTOR_MOVE': 9,
       'AP_SCALAR': 10, 'AP_STR': 11, 'AP_ARR': 12, 'AP_COPY': 13, 'AP_MOVE': 14, 'AP_PTR': 15, 'INDEX': 16, 'MERGE_COPY': 17, 'MERGE_MOVE': 18,
-      'REMOVE_INDEX': 19, 'RESET': 20, 'COMPRESS': 21, 'SET_PTR': 22, 'REMOVE_KEY': 23, 'GET_KEY': 24, 'AP_ELEM': 25}
+      'REMOVE_INDEX': 19, 'RESET': 20, 'COMPRESS': 21, 'SET_PTR': 22, 'REMOVE_KEY': 23, 'GET_KEY': 24, 'AP_ELEM': 25, 'KEY': 26, 'INSERT': 27,
+      'AS_OBJ': 28, 'AP_OBJ': 29}
 def cls(name):
-    """'U' 'NUL' 'T' 'F' 'UI' 'I' 'D' | 'S0' 'S1' 'S2' | 'A' 'A_UI' 'A_U_S' (members) | 'P_<class>'"""
-    d = {'K': 0, 'LEN': 1, 'N': 0, 'E1': 5, 'E2': 5, 'TK': 5}
+    """scalars 'U' 'NUL' 'T' 'F' 'UI' 'I' 'D' | strings 'S0'..'S5' | arrays 'A' 'A_UI' 'A_U_S' (member kinds) |
+       objects 'O' 'O_a.UI' 'O_a.UI_b.S' (key.kind; key e = "", kind X = added and removed, U = created, never written) | 'P_<class>' pointer to"""
+    d = {'K': 0, 'LEN': 1, 'N': 0, 'E1': 5, 'E2': 5, 'TK': 5, 'K1': 1, 'K2': 2}
     parts = name.split('_')
     ptr = parts[0] == 'P'
     if ptr: parts = parts[1:]
@@ -20,6 +24,10 @@ def cls(name):
     if h == 'A':
         k = 3; d['N'] = len(parts) - 1
         for i, e in enumerate(parts[1:]): d['E%d' % (i + 1)] = KIND[e]
+    elif h == 'O':
+        k = 2; d['N'] = len(parts) - 1
+        for i, e in enumerate(parts[1:]):
+            key, kind = e.split('.'); d['K%d' % (i + 1)] = KEYID[key]; d['E%d' % (i + 1)] = KIND[kind]
     elif h[0] == 'S' and h[1:].isdigit():
         k = 4; d['LEN'] = int(h[1:])
     else:
@@ -27,12 +35,12 @@ def cls(name):
     if ptr: d['K'] = 1; d['TK'] = k
     else: d['K'] = k
     return d
-def nmemb(name):
-    c = cls(name); return c['N'] if c['K'] == 3 else 0
-B = {'Dispose': 6, 'Copy': 100, 'SetToZero': 100, 'vf_mem.*': 100, 'Count': 4, 'IsEqual': 6, 'h_step|mk.*|m_.*|obs_.*|scalar_arg|mutate|slot_fill': 9, 'Initialize': 6}
-# heap blocks are byte arrays: keep them field-sensitive up to 200 bytes (default 64), else kind tags stop being constants
-XC = ()   # (--max-field-sensitivity-array-size 512 --object-bits 10 are engine defaults now)
-POWN = '_ZN6Qentem5Digit18powerOfNegativeTenIyEEvRT_j'; POWP = '_ZN6Qentem5Digit18powerOfPositiveTenIyEEvRT_j'
+def is_arr(p): c = cls(p); return c['K'] == 3
+def is_obj(p): c = cls(p); return c['K'] == 2
+def holes(p): c = cls(p); return c['K'] == 2 and 20 in [c['E%d' % (i + 1)] for i in range(c['N'])]
+B = {'Dispose': 6, 'Copy': 100, 'SetToZero': 40, 'vf_mem.*': 100, 'Count': 4, 'IsEqual': 6, 'Hash': 4, 'Initialize': 6, 'find': 4, 'generateHash': 6,
+     'resize|copyTable|ActualSize|operator\\+=': 6, 'h_step|mk.*|m_.*|mo_.*|obs_.*|scalar_arg|mutate|slot_fill|add_obj_member': 9,
+     'stringToNumber|parseExponent': 7, 'BigInt|Add|Multiply|ShiftRight|ShiftLeft|Clear|powerOf.*': 8}
 STN = '_ZN6Qentem5Digit14stringToNumberIcEENS_11QNumberTypeERNS_9QNumber64EPKT_Rjj'
 def Q(pre, op, src=None, kf_only=None, stub=True, **kw):
     d = {'OP': OP[op]}
@@ -41,53 +49,66 @@ def Q(pre, op, src=None, kf_only=None, stub=True, **kw):
     if src is not None:
         for k, v in cls(src).items(): d['SRC_' + k] = v
         name += '/src=' + src
-    for k in ('SEL', 'W', 'BV', 'LEN_A', 'AN', 'IDX', 'COERCE'):
+    for k in ('SEL', 'W', 'BV', 'LEN_A', 'AN', 'IDX', 'KA', 'COERCE'):
         if k in kw:
             d[k] = kw.pop(k); name += '/%s%d' % (k.lower(), d[k])
-    excl = [KF_CTOR] + ([KF_TYPE] if op == 'AS_TYPE' else []) + ([KF_NULLP] if op == 'SET_PTR' else [])
+    excl = [KF_CTOR] + ([KF_TYPE] if op == 'AS_TYPE' else []) + ([KF_NULLP] if op == 'SET_PTR' else []) + ([KF_RMKEY] if op == 'REMOVE_KEY' else [])
     if kf_only:
         excl = [k for k in excl if k != kf_only]; name += '/only:' + kf_only
     if MAN:
         for k in excl: d['KF_EXCL_' + k.replace('-', '_')] = 1
         if kf_only: d['KF_ONLY_' + kf_only.replace('-', '_')] = 1
     return Query(name, 'C12_value.cpp', 'h_step', d, bounds=B, default_unwind=6, rec_bounds={}, default_rec=3, timeout=300, mem_gb=8,
-                 leak=True, stubs=({STN: 'stub_strtonum'} if stub else {}), extra_cbmc=XC, kf_excl=excl, kf_only=(None if MAN else kf_only), **kw)
+                 leak=True, stubs=({STN: 'stub_strtonum'} if stub else {}), kf_excl=excl, kf_only=(None if MAN else kf_only), **kw)
+
+def ops_for(p, A, full, srcs):
+    """every operation applied to pre-state class p; full=False: one representative variant per operation"""
+    f = full
+    for op in ('NONE', 'AS_SELF', 'CTOR_COPY', 'CTOR_MOVE', 'RESET', 'COMPRESS', 'GET_KEY'): A(op)
+    for s in (range(6) if f else (0, 3, 5)): A('AS_SCALAR', SEL=s)
+    for t in ((0, 2, 3, 4, 5, 6, 7, 8, 9, 10) if f else (0, 2, 3)): A('AS_TYPE', SEL=t)
+    for l in ((0, 1, 2) if f else (1,)): A('AS_STR', LEN_A=l, SEL=0)
+    A('AS_STR', SEL=1)
+    for an in ((0, 1, 2) if f else (1,)):
+        for w in (0, 1): A('AS_ARR', AN=an, W=w); A('AS_OBJ', AN=an, W=w)
+    for op in ('AS_COPY', 'AS_MOVE', 'AP_COPY', 'AP_MOVE', 'MERGE_COPY', 'MERGE_MOVE'):
+        for s in srcs: A(op, src=s)
+    for s, w in (((0, 0), (1, 0), (2, 0), (3, 0), (3, 1), (3, 2), (3, 3), (4, 0), (4, 1), (4, 2), (4, 3), (5, 0), (5, 1)) if f else ((0, 0), (3, 0), (5, 1))):
+        A('AP_SCALAR', SEL=s, W=w)
+    for l, w in ([(l, w) for l in (0, 1, 2) for w in (0, 1, 2, 3)] if f else ((1, 0), (1, 3))): A('AP_STR', LEN_A=l, W=w)
+    for an, w in ([(an, w) for an in (0, 1, 2) for w in (0, 1)] if f else ((0, 0), (1, 0), (1, 1))): A('AP_ARR', AN=an, W=w)
+    for an, w in ([(an, w) for an in (0, 1, 2) for w in (0, 1)] if f else ((1, 0), (2, 1))): A('AP_OBJ', AN=an, W=w)
+    for s in (('UI', 'S1', 'A_UI', 'O_a.UI') if f else ('UI',)):
+        for sel in (0, 1):
+            A('AP_PTR', src=s, SEL=sel); A('SET_PTR', src=s, SEL=sel)
+    if not holes(p):
+        for i, w in ([(i, w) for i in (0, 1, 2, 3) for w in (0, 1, 2)] if f else ((0, 0), (1, 0), (2, 0), (1, 1), (1, 2))): A('INDEX', IDX=i, W=w)
+        for i in (0, 1, 2): A('REMOVE_INDEX', IDX=i)
+    for ka, w in ([(ka, w) for ka in (0, 1, 2, 3) for w in range(6)] if f else ((1, 0), (2, 1), (3, 2), (0, 3), (1, 4), (2, 5))): A('KEY', KA=ka, W=w)
+    for ka, s in ([(ka, s) for ka in (1, 3) for s in ('UI', 'S1', 'A_UI', 'O_a.UI')] if f else ((1, 'UI'), (2, 'A_UI'))): A('INSERT', KA=ka, src=s)
+    for ka, w in ([(ka, w) for ka in (0, 1, 2, 3) for w in (0, 1, 2)] if (f and is_obj(p)) else ((1, 0), (1, 1), (2, 2), (3, 1), (0, 0))): A('REMOVE_KEY', KA=ka, W=w)
+    c = cls(p)
+    if c['K'] == 3 and c['N'] > 0 and c['E1'] != 0:
+        A('AP_ELEM', SEL=0); A('AP_ELEM', SEL=1)
+
 def queries(tier):
     q = tier == 'quick'
     qs = []
-    pres = ['U', 'NUL', 'UI', 'D', 'S1', 'A_UI', 'A_U_I', 'P_UI'] if q else \
-           ['U', 'NUL', 'T', 'F', 'UI', 'I', 'D', 'S0', 'S1', 'S2', 'A', 'A_UI', 'A_U', 'A_S', 'A_D', 'A_UI_I', 'A_U_I', 'A_UI_U', 'A_U_U', 'A_T_S',
-            'P_UI', 'P_U', 'P_S1', 'P_A_UI']
-    srcs = ['UI', 'A_UI'] if q else ['U', 'NUL', 'UI', 'D', 'S0', 'S1', 'A', 'A_UI', 'A_U_I', 'A_S', 'P_UI', 'P_A_UI']
-    for p in pres:
-        A = lambda op, **kw: qs.append(Q(p, op, **kw))
-        for op in ('NONE', 'AS_SELF', 'CTOR_COPY', 'CTOR_MOVE', 'RESET', 'COMPRESS', 'REMOVE_KEY', 'GET_KEY'): A(op)
-        if p == 'A':
-            for bv in (1, 2, 3): A('NONE', BV=bv)
-        if p.startswith('A_') and not q:
-            for bv in (1, 2, 3): A('CTOR_COPY', BV=bv)
-        for s in ((0, 3, 5) if q else range(6)): A('AS_SCALAR', SEL=s)
-        for t in ((0, 3) if q else (0, 3, 4, 5, 6, 7, 8, 9, 10)): A('AS_TYPE', SEL=t)
-        for l in ((1,) if q else (0, 1, 2)): A('AS_STR', LEN_A=l, SEL=0)
-        A('AS_STR', SEL=1)
-        for an in ((1,) if q else (0, 1, 2)):
-            for w in (0, 1): A('AS_ARR', AN=an, W=w)
-        for op in ('AS_COPY', 'AS_MOVE', 'AP_COPY', 'AP_MOVE', 'MERGE_COPY', 'MERGE_MOVE'):
-            for s in srcs: A(op, src=s)
-        for s, w in (((0, 0), (3, 0), (5, 1)) if q else ((0, 0), (1, 0), (2, 0), (3, 0), (3, 1), (3, 2), (3, 3), (4, 0), (4, 1), (4, 2), (4, 3), (5, 0), (5, 1))):
-            A('AP_SCALAR', SEL=s, W=w)
-        for l, w in (((1, 0), (1, 3)) if q else [(l, w) for l in (0, 1, 2) for w in (0, 1, 2, 3)]): A('AP_STR', LEN_A=l, W=w)
-        for an, w in (((0, 0), (1, 0), (1, 1)) if q else [(an, w) for an in (0, 1, 2) for w in (0, 1)]): A('AP_ARR', AN=an, W=w)
-        for s in (('UI',) if q else ('UI', 'S1', 'A_UI')):
-            for sel in (0, 1):
-                A('AP_PTR', src=s, SEL=sel); A('SET_PTR', src=s, SEL=sel)
-        for i, w in (((0, 0), (1, 0), (2, 0), (1, 1), (1, 2)) if q else [(i, w) for i in (0, 1, 2, 3) for w in (0, 1, 2)]): A('INDEX', IDX=i, W=w)
-        for i in (0, 1, 2): A('REMOVE_INDEX', IDX=i)
-        c = cls(p)
-        if c['K'] == 3 and c['N'] > 0 and c['E1'] != 0:
-            A('AP_ELEM', SEL=0); A('AP_ELEM', SEL=1)
+    core = ['UI', 'S1', 'A_U_I', 'O_a.UI_b.S', 'P_UI'] if q else \
+           ['U', 'NUL', 'T', 'F', 'UI', 'I', 'D', 'S0', 'S1', 'S2', 'A', 'A_UI', 'A_S', 'A_UI_I', 'A_U_I', 'A_UI_U', 'A_T_S',
+            'O', 'O_a.UI', 'O_ab.S', 'O_a.UI_b.S', 'O_e.NUL_ab.D', 'O_a.X_b.UI', 'O_a.UI_b.X', 'O_a.U_b.T',
+            'P_UI', 'P_S1', 'P_A_UI', 'P_O_a.UI']
+    side = ['U', 'NUL', 'D', 'A', 'A_UI', 'O', 'O_a.UI', 'O_a.X_b.UI', 'O_a.U_b.T', 'P_A_UI', 'P_O_a.UI'] if q else ['A_U', 'A_D', 'A_U_U', 'O_b.T_a.F', 'P_U', 'P_D']
+    srcs = ['UI', 'A_UI', 'O_a.UI'] if q else ['U', 'UI', 'S1', 'A', 'A_UI', 'A_U_I', 'O', 'O_a.UI', 'O_b.S_a.I', 'O_a.X_ab.T', 'P_UI', 'P_O_a.UI']
+    for p in core:
+        ops_for(p, lambda op, **kw: qs.append(Q(p, op, **kw)), not q, srcs)
+    for p in side:      # further pre-state classes: observers, copy, move, reset, compress, one append, one keyed write
+        for op in ('NONE', 'CTOR_COPY', 'CTOR_MOVE', 'RESET', 'COMPRESS'): qs.append(Q(p, op))
+        qs.append(Q(p, 'AP_SCALAR', SEL=3, W=0)); qs.append(Q(p, 'KEY', KA=1, W=0)); qs.append(Q(p, 'AS_COPY', src='O_a.UI'))
+    for p, bvs in (('A', (1, 2, 3)), ('A_UI_I', (1, 2, 3)), ('O', (1, 2, 3)), ('O_a.UI_b.S', (1, 2, 3)), ('O_a.X_b.UI', (1, 2, 3))):   # the other constructor families
+        for bv in (bvs if not q else bvs[1:2]):
+            qs.append(Q(p, 'NONE', BV=bv)); qs.append(Q(p, 'CTOR_COPY', BV=bv))
     # numeric / boolean coercion of strings (real Digit::stringToNumber and power kernels, no stub): concrete texts with their expected reading
-    import struct
     def dbl(x): return struct.unpack('<Q', struct.pack('<d', x))[0]
     CO = [('0', 2, 0, 0), ('7', 2, 7, 0), ('123', 2, 123, 0), ('-5', 3, (1 << 64) - 5, 0), ('1.5', 1, dbl(1.5), 0), ('true', 0, 0, 1), ('false', 0, 0, 2),
           ('abc', 0, 0, 0), ('', 0, 0, 0), ('12a', 0, 0, 0), ('007', 0, 0, 0), ('1e2', 1, dbl(100.0), 0), ('-0', 3, 0, 0), ('True', 0, 0, 0), ('+3', 2, 3, 0)]
@@ -100,8 +121,12 @@ def queries(tier):
     # the findings themselves
     qs.append(Q('UI', 'AP_SCALAR', SEL=3, W=0, kf_only=KF_CTOR))
     qs.append(Q('D', 'INDEX', IDX=0, W=0, kf_only=KF_CTOR))
+    qs.append(Q('I', 'KEY', KA=1, W=0, kf_only=KF_CTOR))
     qs.append(Q('S1', 'AS_TYPE', SEL=10, kf_only=KF_TYPE))
     qs.append(Q('UI', 'AS_TYPE', SEL=3, kf_only=KF_TYPE))
     qs.append(Q('UI', 'SET_PTR', src='UI', SEL=1, kf_only=KF_NULLP))
     qs.append(Q('P_UI', 'SET_PTR', src='UI', SEL=1, kf_only=KF_NULLP))
+    qs.append(Q('O_a.UI_b.S', 'REMOVE_KEY', KA=2, W=1, kf_only=KF_RMKEY))      # "b" read with length 2: not found, nothing removed
+    qs.append(Q('O_a.UI', 'REMOVE_KEY', KA=3, W=1, kf_only=KF_RMKEY))          # "ab" read with length 1: removes "a"
+    qs.append(Q('O_a.UI_b.S', 'REMOVE_KEY', KA=0, W=1, kf_only=KF_RMKEY))      # "" read with length 2: one unit past the key's storage
     return qs
